@@ -33,7 +33,11 @@ func autoCreateMiddleware(backend system.Controller, tracer trace.Tracer) func(h
 					Bucket: ledgerName,
 				}); err != nil {
 					switch {
-					case errors.Is(err, ledger.ErrInvalidLedgerName{}):
+					// same client errors as the explicit creation (v2 POST /{ledger}): the name is used both
+					// as ledger name and as bucket name
+					case errors.Is(err, system.ErrInvalidLedgerConfiguration{}) ||
+						errors.Is(err, ledger.ErrInvalidLedgerName{}) ||
+						errors.Is(err, ledger.ErrInvalidBucketName{}):
 						api.BadRequest(w, common.ErrValidation, err)
 					default:
 						common.InternalServerError(w, r, err)
